@@ -53,10 +53,15 @@ func (p pool) get(s *spec) (*wctx, error) {
 	}
 	cfg := opdrv.DefaultConfig()
 	cfg.AuthMethodPost, cfg.AuthMethodPrivateKeyJWT, cfg.GrantTypeRefreshToken = s.Post, s.PKJWT, s.Refresh
-	w, err := opdrv.NewWorld(opdrv.Options{Config: cfg, Caps: s.Caps})
+	wopt := opdrv.Options{Config: cfg, Caps: s.Caps}
+	if s.PermSub {
+		wopt.WrapProvider = opdrv.PermissiveSubject
+	}
+	w, err := opdrv.NewWorld(wopt)
 	if err != nil {
 		return nil, err
 	}
+	w.Store.NaiveSecrets = s.Naive
 	full := func(c *vclient.Client) *vclient.Client {
 		c.Grants = append([]oidc.GrantType(nil), allGrants...)
 		c.ServiceUser = true
@@ -201,6 +206,7 @@ const (
 	akOtherKey
 	akWrongAud
 	akSubMismatch
+	akForgedIssuer
 )
 
 // assertion builds a JWT assertion for issuer iss; it reports whether it verifies for the case's client.
@@ -230,7 +236,14 @@ func assertion(s *spec, w *opdrv.World, iss string, kind assertionKind) (string,
 		aud = []string{"https://not-the-op.example"}
 		valid = false
 	case akSubMismatch:
+		// signed by the issuer's own key; only the subject differs: "its subject equals its issuer (unless a custom
+		// subject check is configured)"
 		sub = otherBID
+		valid = valid && s.PermSub
+	case akForgedIssuer:
+		// another registered client signs with ITS key and kid, names itself as subject and the case's client as issuer
+		sub = otherJID
+		k = otherKey()
 		valid = false
 	}
 	return opdrv.Assertion(k, iss, sub, aud, iat, exp, nil), valid
@@ -269,6 +282,9 @@ func present(s *spec, w *opdrv.World, id string, rq *request) proof {
 	case pBasicWrong:
 		rq.Authorization = basicHeader(id, s.wrongSecret(), true)
 		p.wrongSecret = true
+	case pAssertTypeOnly:
+		f.Set("client_id", id)
+		f.Set("client_assertion_type", oidc.ClientAssertionTypeJWTAssertion)
 	case pBasicEmptySecret:
 		rq.Authorization = basicHeader(id, "", true)
 		p.wrongSecret = true
@@ -340,14 +356,15 @@ func present(s *spec, w *opdrv.World, id string, rq *request) proof {
 		p.badAssertion = !valid
 		p.altEncoding = valid && !typed
 		p.canonical = valid && typed
-	case pAssertExpired, pAssertOtherKey, pAssertWrongAud, pAssertSubMismatch:
-		kind := map[int]assertionKind{pAssertExpired: akExpired, pAssertOtherKey: akOtherKey, pAssertWrongAud: akWrongAud, pAssertSubMismatch: akSubMismatch}[s.Pres]
-		a, _ := assertion(s, w, id, kind)
+	case pAssertExpired, pAssertOtherKey, pAssertWrongAud, pAssertSubMismatch, pAssertForgedIssuer:
+		kind := map[int]assertionKind{pAssertExpired: akExpired, pAssertOtherKey: akOtherKey, pAssertWrongAud: akWrongAud, pAssertSubMismatch: akSubMismatch, pAssertForgedIssuer: akForgedIssuer}[s.Pres]
+		a, valid := assertion(s, w, id, kind)
 		setAssertion(f, a, true)
 		if s.WrongVar%2 == 0 {
 			f.Set("client_id", id)
 		}
-		p.badAssertion = true
+		// (a subject mismatch is a valid credential of the issuer when the application configured a permissive check)
+		p.validAssertion, p.badAssertion = valid, !valid
 	case pOwnBasicOtherID:
 		sec, ok := secretOr()
 		rq.Authorization = basicHeader(id, sec, true)
@@ -401,6 +418,8 @@ func bearerAssertion(s *spec, w *opdrv.World, id string, f url.Values) int {
 		kind = akWrongAud
 	case pAssertSubMismatch:
 		kind = akSubMismatch
+	case pAssertForgedIssuer:
+		kind = akForgedIssuer
 	case pUnknownAssert, pUnknownBasic, pUnknownID:
 		now := time.Now()
 		a := opdrv.Assertion(rogueKey(), "ghost-"+id, "ghost-"+id, []string{w.Issuer}, now.Add(-5*time.Second), now.Add(10*time.Minute), nil)
